@@ -2650,6 +2650,27 @@ namespace awkward {
   template <typename T, typename I>
   void
   ForthMachineOf<T, I>::internal_run(bool single_step, int64_t recursion_target_depth_top) { // noexcept
+    // After one instruction in single-step mode: leave every segment that has reached its end and advance the
+    // 'do' loop that owns it, exactly as the non-stepping loop does at 'after_end_of_segment'.
+    auto leave_ended_segments = [this, recursion_target_depth_top]() {
+      while (recursion_current_depth_ != recursion_target_depth_top  &&  is_segment_done()) {
+        bytecodes_pointer_pop();
+        if (do_current_depth_ != 0  &&
+            do_abs_recursion_depth() == recursion_current_depth_) {
+          if (do_loop_is_step()) {
+            if (stack_cannot_pop()) {
+              current_error_ = util::ForthError::stack_underflow;
+              return;
+            }
+            do_i() += stack_pop();
+          }
+          else {
+            do_i()++;
+          }
+        }
+      }
+    };
+
     while (recursion_current_depth_ != recursion_target_depth_top) {
       while (bytecodes_pointer_where() < (
                  bytecodes_offsets_[(IndexTypeOf<int64_t>)bytecodes_pointer_which() + 1] -
@@ -3807,9 +3828,7 @@ namespace awkward {
 
         count_instructions_++;
         if (single_step) {
-          if (is_segment_done()) {
-            bytecodes_pointer_pop();
-          }
+          leave_ended_segments();
           return;
         }
 
